@@ -13,7 +13,7 @@ pub struct Case {
     pub x: u64,
 }
 
-fn eval(c: &Case) -> Eval {
+pub fn eval(c: &Case) -> Eval {
     if c.width == 32 {
         let x = c.x as u32;
         let h = int32_hash(x);
@@ -192,4 +192,8 @@ pub fn replay(ctx: &Ctx, sub: &str, case: &Value) -> Result<(), String> {
     let c: Case = parse_case(case)?;
     ctx.run_fixed(sub, &c, eval);
     Ok(())
+}
+
+pub fn fuzz_strategy() -> impl Strategy<Value = Case> {
+    strat64()
 }
